@@ -70,7 +70,7 @@ def show(paths) -> str:
 # ----------------------------------------------------------------------------------------------- agreement with a reference model
 import ast  # noqa: E402
 
-LOST = ("@after", "@loop", "@maybe", "@it", "@cur")
+LOST = ("@maybe", "@it", "@cur", "@try")
 
 
 IGNORE: list = []  # call-text prefixes left out of the comparison by the current agree() call (bookkeeping such as source locations)
@@ -88,7 +88,7 @@ def _relevant(effects):
             a, b = _relevant(e[2]), _relevant(e[3])
             if a or b:
                 out.append(("if", e[1], tuple(a), tuple(b)))
-        elif e[0] in ("store", "raise", "del", "return", "with", "endwith"):
+        elif e[0] in ("store", "raise", "del", "return", "with", "endwith", "set"):
             out.append(e)
         elif e[0] == "maybe":
             inner = _relevant(e[1])
@@ -108,18 +108,17 @@ def signature(paths):
     rows = {"returns": [], "stores": [], "raises": []}
     for p in paths:
         rel = _relevant(p.effects)
-        early = [e for e in rel if _only(e, "return")]
-        rel = [e for e in rel if not _only(e, "return")]
-        stores = [e for e in rel if e[0] != "raise" and not _only_raises(e)]
-        rs = [e for e in rel if e[0] == "raise" or _only_raises(e)]
+        early = _project(rel, lambda e: e[0] == "return")
+        stores = _project(rel, lambda e: e[0] not in ("return", "raise"))
+        rs = _project(rel, lambda e: e[0] == "raise")
         if p.kind == "return":
             rows["returns"].append((p.conds, (summary.show_effects(early) + " ; then " if early else "") + f"{p.value}"))
         elif p.kind == "raise":
             rows["raises"].append((p.conds, f"raise {p.value}"))
         if stores:
             rows["stores"].append((p.conds, summary.show_effects(stores)))
-        for e in rs:
-            rows["raises"].append((p.conds, summary.show_effect(e)))
+        if rs:
+            rows["raises"].append((p.conds, summary.show_effects(rs)))
     return {k: _case_table(v) for k, v in rows.items()}
 
 
@@ -190,6 +189,62 @@ def _case_table(rows):
     return sorted(table)
 
 
+def _project(effects, pred):
+    """The effect tree restricted to the primitive effects that satisfy pred (loops and branches kept where non-empty)."""
+    out = []
+    for e in effects:
+        if e[0] == "rep":
+            inner = _project(e[2], pred)
+            if inner:
+                out.append(("rep", e[1], tuple(inner)))
+        elif e[0] == "if":
+            a, b = _project(e[2], pred), _project(e[3], pred)
+            if a or b:
+                node = ("if", e[1], tuple(a), tuple(b))
+                # `if A: if B: X` (nothing else under A) is `if A and B: X`
+                while not node[3] and len(node[2]) == 1 and node[2][0][0] == "if" and not node[2][0][3] and not node[1].startswith("not ALL[") and not node[2][0][1].startswith("not ALL["):
+                    inner = node[2][0]
+                    node = ("if", " and ".join(sorted(set(_split_and(node[1])) | set(_split_and(inner[1])))), inner[2], ())
+                out.append(node)
+        elif e[0] == "maybe":
+            inner = _project(e[1], pred)
+            if inner:
+                out.append(("maybe", tuple(inner)))
+        elif pred(e):
+            out.append(e)
+    return out
+
+
+def _split_and(text: str):
+    """Top-level conjuncts of a condition text."""
+    parts, depth, cur, i, quote = [], 0, "", 0, None
+    while i < len(text):
+        ch = text[i]
+        if quote:
+            cur += ch
+            if ch == quote and text[i - 1] != "\\":
+                quote = None
+        elif ch in "'\"":
+            quote = ch
+            cur += ch
+        elif ch in "([{":
+            depth += 1
+            cur += ch
+        elif ch in ")]}":
+            depth -= 1
+            cur += ch
+        elif depth == 0 and text.startswith(" and ", i):
+            parts.append(cur)
+            cur = ""
+            i += 5
+            continue
+        else:
+            cur += ch
+        i += 1
+    parts.append(cur)
+    return parts
+
+
 def _only(e, kind) -> bool:
     if e[0] == kind:
         return True
@@ -202,6 +257,16 @@ def _only(e, kind) -> bool:
 
 def _only_raises(e) -> bool:
     return _only(e, "raise")
+
+
+def _defaults(fn) -> dict:
+    """{parameter name: source text of its default} for the parameters that have one."""
+    from ..model import norm
+
+    pos = fn.args.args
+    out = {a.arg: norm(d) for a, d in zip(pos[len(pos) - len(fn.args.defaults):], fn.args.defaults)}
+    out.update({a.arg: norm(d) for a, d in zip(fn.args.kwonlyargs, fn.args.kw_defaults) if d is not None})
+    return out
 
 
 def reference_paths(source: str, params=None):
@@ -223,6 +288,17 @@ def agree(ctx, rule, finfo, reference: str, what: dict, params=None, keep=(), ke
     finally:
         IGNORE[:] = []
     ctx.touch(finfo)
+    # default values of the parameters are behaviour too (the summaries start from the parameters' names)
+    try:
+        ref_fn = ast.parse(reference.strip("\n")).body[0]
+        want_defaults = _defaults(ref_fn)
+        got_defaults = _defaults(finfo.node)
+        shared_names = set(want_defaults) & set(got_defaults)
+        bad = sorted(n for n in shared_names if want_defaults[n] != got_defaults[n]) + sorted(set(want_defaults) ^ set(got_defaults))
+        ctx.ob(rule, finfo.qualname, not bad, "parameter defaults as in the reference model" if not bad else
+               f"parameter defaults differ from the reference model: {[(n, got_defaults.get(n), want_defaults.get(n)) for n in bad]}", key=key_prefix + "defaults", where=finfo.where)
+    except SyntaxError:
+        pass
     if only_cases is not None:  # compare only the cases (rows of the case table) the property speaks about
         found = {k: [r for r in v if only_cases(r)] for k, v in found.items()}
         want = {k: [r for r in v if only_cases(r)] for k, v in want.items()}
